@@ -291,7 +291,8 @@ func init() {
 		triple.NewLiteralObject(mustLit(literal.Text, "x y")), triple.NewLiteralObject(mustLit(literal.Bool, true)),
 		triple.NewLiteralObject(mustLit(literal.Float64, 1.5)),
 		triple.NewPredicateObject(mustImm("p")), triple.NewPredicateObject(mustTmp("p", qt0)), triple.NewPredicateObject(mustTmp("q", qt1)))
-	for _, v := range []int64{-2, -1, 10, 11} {
+	// the ends of int64: sums that leave the range
+	for _, v := range []int64{-2, -1, 10, 11, 9223372036854775807, 9223372036854775806, -9223372036854775808, 4611686018427387904} {
 		qNums = append(qNums, triple.NewLiteralObject(mustLit(literal.Int64, v)))
 	}
 	for _, v := range []float64{0.25, -2, 2.5, 1.25, 1.75, -2.5} {
